@@ -15,6 +15,9 @@ Decided on all paths of the code generator (i.e. for every template the compiler
     with reviewed exceptions for error paths that abort the whole render.
  B4 with_execution_state writes back every field of State it replaced.
  B5 instruction handlers do what their names say: opener handlers push exactly their resource, closers pop it.
+ B8 the interpreter's program counter only receives positions of the instructions it is running: jump operands of
+    the fetched instruction, constants, pc + k, return addresses produced by the same evaluation, and positions
+    remembered in objects only behind a comparison of the instructions' identity (c05_jumps).
 """
 from .. import cfg, flow, errflow, query, arms
 from ..brackets import Analysis, State, GEN, INSTR, PEND, COUNTERS
@@ -226,6 +229,10 @@ def run(ctx):
                        "wrong values" % v, ev.where(entry) if entry is not None else ev.loc)
         elif efl is not None:
             ctx.count("C05.B6 not applicable: PopLoopFrame has no computed jump")
+
+        # ---- B8: the program counter only ever holds positions of the running instructions (c05_jumps)
+        from .c05_jumps import check_jumps
+        check_jumps(ctx, prog, tag)
 
         # ---- B3
         if prog.has_fn("minijinja::vm::Executor::load_blocks"):
